@@ -202,7 +202,14 @@ pub struct GStats {
 }
 
 fn sim(inst: &mut Inst, from: &str, to: Option<&str>, data: &[u8]) -> (bool, String) {
-    let r = inst.call("eth_call", json!([{"from": from, "to": to, "data": hx(data)}, null]));
+    sim_with(inst, from, to, data, "data", Value::Null)
+}
+
+/// `key`: the request field carrying the call data ("data" or its alias "input"); `tag`: the block parameter
+fn sim_with(inst: &mut Inst, from: &str, to: Option<&str>, data: &[u8], key: &str, tag: Value) -> (bool, String) {
+    let mut call = json!({"from": from, "to": to});
+    call[key] = json!(hx(data));
+    let r = inst.call("eth_call", json!([call, tag]));
     match r.result() {
         Some(v) => (true, v.as_str().unwrap_or("").to_string()),
         None => {
@@ -224,6 +231,36 @@ fn submit(inst: &mut Inst, w: &mut World, tx: &TxSpec) -> (Value, String) {
     let out = tr.result().and_then(|t| t["output"].as_str().map(|s| s.to_string())).unwrap_or_else(|| "<no trace>".into());
     w.exec(inst, &Step::Fin);
     (rc, out)
+}
+
+/// What a transaction that ran out of its allowance changed besides its sender's account row and its own
+/// transaction rows (the global table only holds the highest-block high-water mark).
+fn oog_changes(before: &brc20_prog::verif::VerifDump, after: &brc20_prog::verif::VerifDump, sender: &str) -> Vec<String> {
+    let la = obs::logical(before);
+    let lb = obs::logical(after);
+    let mut out = Vec::new();
+    for (table, rows) in &lb {
+        let empty = BTreeMap::new();
+        let old = la.get(table).unwrap_or(&empty);
+        let own = ["db_tx", "db_tx_receipt", "db_number_and_index_to_tx_hash", "db_inscription_id_to_tx_hash", "db_tx_trace", "~meta", "db_global_values"].contains(&table.as_str());
+        if own {
+            continue;
+        }
+        for (key, val) in rows {
+            if old.get(key) != Some(val) {
+                let is_sender_account = table == "db_account" && hex::encode(key) == sender.trim_start_matches("0x");
+                if !is_sender_account {
+                    out.push(format!("{} key {} changed", table, hex::encode(key)));
+                }
+            }
+        }
+        for key in old.keys() {
+            if !rows.contains_key(key) {
+                out.push(format!("{} key {} removed", table, hex::encode(key)));
+            }
+        }
+    }
+    out
 }
 
 fn hexu(v: &Value) -> u64 {
@@ -287,6 +324,47 @@ pub fn worker(which: &str, tier: &str, shard: u64, nshards: u64, budget_s: f64) 
                         dep_b = TxSpec::Deploy { pk: 2, code: init.clone(), len: g.div_ceil(GAS_PER_BYTE) };
                     }
                     None => st.violations.push(mk("estimate-fails-although-call-succeeds", format!("creation of {}", pname), format!("the simulated creation succeeds but eth_estimateGas answers {}", canon(&e.to_value())))),
+                }
+            }
+            // C16: the creation itself with allowances of 0, 1, estimate - 1 bytes (and, for every third program, a
+            // signed creation): the receipt never records more than the allowance, and a creation that ran out of
+            // it changes nothing but the sender's nonce
+            if which == "C16" && si == 0 {
+                if let Some(g) = creation_est {
+                    worlds[1].exec(&mut b, &Step::Commit);
+                    let el = g.div_ceil(GAS_PER_BYTE);
+                    let before = obs::masked(b.dump());
+                    let mut forms: Vec<(TxSpec, String, u64)> = Vec::new();
+                    for l in [0u64, 1, el.saturating_sub(1)] {
+                        forms.push((TxSpec::Deploy { pk: 2, code: init.clone(), len: l }, addr_s(pk_addr(2)), l));
+                        if pi % 3 == 0 {
+                            forms.push((TxSpec::Transact { signer: 1, nonce: 0, tgt: Tgt::Create, data: init.clone(), len: l }, addr_s(crate::sign::signer_addr(1)).to_lowercase(), l));
+                        }
+                    }
+                    for (tx, from, l) in forms {
+                        st.lens_checked += 1;
+                        let allowance = l.saturating_mul(GAS_PER_BYTE);
+                        let mut w = worlds[1].clone();
+                        let o = w.exec(&mut b, &Step::Tx(tx.clone()));
+                        let rc = match o.outcome.result() {
+                            Some(Value::Array(rs)) => rs.first().cloned().unwrap_or(Value::Null),
+                            Some(v) => v.clone(),
+                            None => Value::Null,
+                        };
+                        let gu = hexu(&rc["gasUsed"]);
+                        let what = format!("creation of {} ({}) with inscription length {}", pname, if matches!(tx, TxSpec::Deploy { .. }) { "brc20_deploy" } else { "brc20_transact" }, l);
+                        if gu > allowance {
+                            st.violations.push(mk("allowance-exceeded", what.clone(), format!("inscription length {} allows {} gas but the receipt records {}", l, allowance, gu)));
+                        }
+                        if rc["status"].as_str() != Some("0x1") && (gu == allowance || gu == 0) {
+                            st.out_of_gas += 1;
+                            let after = obs::masked(b.dump());
+                            for d in oog_changes(&before, &after, &from) {
+                                st.violations.push(mk("out-of-gas-changed-state", what.clone(), format!("allowance {}: the creation failed with gasUsed {} but {}", allowance, gu, d)));
+                            }
+                        }
+                        b.call("brc20_clearCaches", json!([]));
+                    }
                 }
             }
             let (w0, w1) = worlds.split_at_mut(1);
@@ -376,13 +454,25 @@ pub fn worker(which: &str, tier: &str, shard: u64, nshards: u64, budget_s: f64) 
                     }
                     lens.sort();
                     lens.dedup();
-                    for l in lens {
+                    // the inscription call with every length; for one call-data value also the same call as a signed
+                    // transaction of a fresh signer (the allowance rule is the same)
+                    let mut forms: Vec<(u64, bool)> = lens.iter().map(|l| (*l, false)).collect();
+                    if d[0] == 3 && si == 0 && pi % 4 == 0 {
+                        forms.extend(lens.iter().filter(|l| **l != u64::MAX).map(|l| (*l, true)));
+                    }
+                    for (l, signed) in forms {
                         st.lens_checked += 1;
                         let allowance = l.saturating_mul(GAS_PER_BYTE);
                         let mut w = worlds[0].clone();
-                        let tx = TxSpec::Call { pk: 1, tgt: prog_tgt(), data: d.clone(), len: l };
+                        let tx = if signed { TxSpec::Transact { signer: 1, nonce: 0, tgt: prog_tgt(), data: d.clone(), len: l } } else { TxSpec::Call { pk: 1, tgt: prog_tgt(), data: d.clone(), len: l } };
                         let o = w.exec(&mut a, &Step::Tx(tx));
-                        let rc = o.outcome.result().cloned().unwrap_or(Value::Null);
+                        let rc = match o.outcome.result() {
+                            Some(Value::Array(rs)) => rs.first().cloned().unwrap_or(Value::Null),
+                            Some(v) => v.clone(),
+                            None => Value::Null,
+                        };
+                        let sender = if signed { addr_s(crate::sign::signer_addr(1)).to_lowercase() } else { sender.clone() };
+                        let what = if signed { format!("{} (as a signed transaction)", what) } else { what.clone() };
                         let g = hexu(&rc["gasUsed"]);
                         if g > allowance {
                             st.violations.push(mk("allowance-exceeded", what.clone(), format!("inscription length {} allows {} gas but the receipt records {}", l, allowance, g)));
@@ -392,32 +482,12 @@ pub fn worker(which: &str, tier: &str, shard: u64, nshards: u64, budget_s: f64) 
                             // ran out of its allowance (or was refused up front): nothing but the sender's nonce may change
                             st.out_of_gas += 1;
                             let after = obs::masked(a.dump());
-                            let la = obs::logical(&before);
-                            let lb = obs::logical(&after);
-                            for (table, rows) in &lb {
-                                let empty = BTreeMap::new();
-                                let old = la.get(table).unwrap_or(&empty);
-                                let own = ["db_tx", "db_tx_receipt", "db_number_and_index_to_tx_hash", "db_inscription_id_to_tx_hash", "db_tx_trace", "~meta", "db_global_values"].contains(&table.as_str()); // (the global table only holds the highest-block high-water mark)
-                                if own {
-                                    continue;
-                                }
-                                for (key, val) in rows {
-                                    if old.get(key) != Some(val) {
-                                        let is_sender_account = table == "db_account" && hex::encode(key) == sender.trim_start_matches("0x");
-                                        if !is_sender_account {
-                                            st.violations.push(mk("out-of-gas-changed-state", what.clone(), format!("inscription length {} (allowance {}): the transaction failed with gasUsed {} but {} key {} changed", l, allowance, g, table, hex::encode(key))));
-                                        }
-                                    }
-                                }
-                                for key in old.keys() {
-                                    if !rows.contains_key(key) {
-                                        st.violations.push(mk("out-of-gas-changed-state", what.clone(), format!("inscription length {}: {} key {} removed by a failed transaction", l, table, hex::encode(key))));
-                                    }
-                                }
+                            for d in oog_changes(&before, &after, &sender) {
+                                st.violations.push(mk("out-of-gas-changed-state", what.clone(), format!("inscription length {} (allowance {}): the transaction failed with gasUsed {} but {}", l, allowance, g, d)));
                             }
                         }
                         if let Some((eg, el)) = est_len {
-                            if l == el && !status {
+                            if l == el && !status && !signed {
                                 st.violations.push(mk("estimate-insufficient", what.clone(), format!("estimate {} -> length {}: status {} gasUsed {}", eg, el, rc["status"], rc["gasUsed"])));
                             }
                         }
@@ -474,6 +544,60 @@ pub fn worker(which: &str, tier: &str, shard: u64, nshards: u64, budget_s: f64) 
                 if st.violations.len() > 25 {
                     st.complete = false;
                     break 'outer;
+                }
+            }
+            // C17: empty call data, the `input` spelling of the data field and the explicit `pending` block tag
+            if which == "C17" {
+                for (d, key, tag) in [(Vec::<u8>::new(), "data", Value::Null), (datas[1].clone(), "input", json!("pending"))] {
+                    st.cases += 1;
+                    let what = format!("{} call data {} bytes via `{}` at {}", pname, d.len(), key, tag);
+                    let (ok, data) = sim_with(&mut a, &sender, Some(&target), &d, key, tag);
+                    let mut w = worlds[0].clone();
+                    let (rc, out) = submit(&mut a, &mut w, &TxSpec::Call { pk: 1, tgt: prog_tgt(), data: d.clone(), len: DEFAULT_LEN });
+                    let status = rc["status"].as_str() == Some("0x1");
+                    if status != ok || out.trim_start_matches("0x") != data.trim_start_matches("0x") {
+                        st.violations.push(mk("call-differs-from-transaction", what.clone(), format!("eth_call gave (success {}, data {}) but the transaction gave (status {}, output {})", ok, trunc(&data, 200), rc["status"], trunc(&out, 200))));
+                    }
+                    a.call("brc20_clearCaches", json!([]));
+                }
+            }
+            // C17: targets other than the program: precompiles called directly, an account without code, the
+            // controller, S; from the pkscript sender, a never-used sender and the signer
+            if which == "C17" && pi % 32 == 0 {
+                let lp = calldatas()[0][1..].to_vec();
+                let bal = {
+                    alloy::sol! { function balanceOf(bytes ticker, address holder) returns (uint256); }
+                    balanceOfCall { ticker: Bytes::from(b"ordi".to_vec()), holder: pk_addr(1) }.abi_encode()
+                };
+                let targets: Vec<(Tgt, Vec<u8>)> = vec![
+                    (Tgt::Addr("0x0000000000000000000000000000000000000002".into()), vec![1, 2, 3]),
+                    (Tgt::Addr("0x0000000000000000000000000000000000000004".into()), vec![9; 40]),
+                    (Tgt::Addr("0x0000000000000000000000000000000000000001".into()), vec![0; 128]),
+                    (Tgt::Addr("0x00000000000000000000000000000000000000fb".into()), lp.clone()),
+                    (Tgt::Addr("0x00000000000000000000000000000000000000fb".into()), vec![1, 2, 3]),
+                    (Tgt::Addr("0x00000000000000000000000000000000000000fe".into()), vec![0; 4]),
+                    (Tgt::Addr("0x00000000000000000000000000000000000000ee".into()), vec![1]),
+                    (Tgt::Controller, bal),
+                    (Tgt::Controller, vec![0xde, 0xad, 0xbe, 0xef]),
+                    (Tgt::s(), vec![6, 0]),
+                    (Tgt::s(), vec![2]),
+                    (Tgt::s(), vec![3]),
+                    (Tgt::Dead, vec![]),
+                ];
+                for (tg, d) in targets {
+                    for pk in [1u8, 7] {
+                        st.cases += 1;
+                        let to = tg.resolve().unwrap();
+                        let what = format!("target {} data {} from pkscript {} after {}", to, hx(&d[..d.len().min(8)]), pk, pname);
+                        let (ok, data) = sim(&mut a, &addr_s(pk_addr(pk)), Some(&to), &d);
+                        let mut w = worlds[0].clone();
+                        let (rc, out) = submit(&mut a, &mut w, &TxSpec::Call { pk, tgt: tg.clone(), data: d.clone(), len: DEFAULT_LEN });
+                        let status = rc["status"].as_str() == Some("0x1");
+                        if status != ok || out.trim_start_matches("0x") != data.trim_start_matches("0x") {
+                            st.violations.push(mk("call-differs-from-transaction", what.clone(), format!("eth_call gave (success {}, data {}) but the transaction gave (status {}, output {})", ok, trunc(&data, 200), rc["status"], trunc(&out, 200))));
+                        }
+                        a.call("brc20_clearCaches", json!([]));
+                    }
                 }
             }
             // C17: the same comparison on top of UNCOMMITTED blocks in which the sender and the program's storage
